@@ -1,13 +1,16 @@
 /-
-C09 over whole histories, part 11: ONE CALL.  `Kept v0 e cs h s gh`: the state `s` (invariant, ghost `gh`) shows the
+C09 over whole histories, part 11: ONE CALL.  `Kept v0 e cs ys h s gh`: the state `s` (invariant, ghost `gh`) shows the
 flushed file `e` (chain `cs`) as an object of directory `h` no handle of which has unflushed changes.
 `kept_step`: a covered call that does not target the file has a licence that is `NotNamed` for it and names no FAT
 entry of a non-last cluster of the directory's chain, and the state after the call is `Kept` again.
 -/
 import Sdmmc.Lemmas.SurviveTrack2
+import Sdmmc.Lemmas.SurviveDir2
 import Sdmmc.Lemmas.SurviveMain
 import Sdmmc.Lemmas.AbsFsTotal
 import Sdmmc.Lemmas.NameE5
+import Sdmmc.Lemmas.SurviveFlush
+import Sdmmc.Lemmas.VolCrashHist
 
 namespace Sdmmc.Lemmas.Survive
 open Sdmmc.Model Sdmmc.Model.Fat Sdmmc.Spec.Volume Sdmmc.Lemmas.VolBase Sdmmc.Lemmas.VolTree
@@ -36,26 +39,76 @@ theorem nameCovered_all (op : Op) : NameCovered op := by
 
 /-! ### The invariant of the flushed file -/
 
-/-- The state `s` (ghost `gh`, geometry of `v0`, FAT copies identical) shows the flushed file: its slot holds the
-serialised entry `e`, `cs` is its chain, the slot is an object of directory `h`, and no handle of it has unflushed changes. -/
-structure Kept (v0 : FatVolume) (e : DirEntry) (cs : List Nat) (h : Nat) (s : Mgr) (gh : Ghost) : Prop where
+/-- The state `s` (ghost `gh`, geometry of `v0`, FAT copies identical, `RawOK`) shows the flushed file: its slot holds
+the serialised entry `e`, `cs` is its chain, the slot is a file object of directory `h`, and every open file that sits
+at the slot has no unflushed changes or still has the flushed entry as its record (`f.entry = e`; then the file owns a
+cluster: what a later `flush_file` / `close_file` of that handle stores is what the slot holds). -/
+structure Kept (v0 : FatVolume) (e : DirEntry) (cs : List Nat) (ys : List Slot) (h : Nat) (s : Mgr) (gh : Ghost) : Prop where
   inv : VolInv s gh
   mirror : Mirror gh.vol s.dev.disk
+  raw : RawOK gh.vol.fatType s.dev.disk s.files
   geom : SameGeom v0 gh.vol
   flushed : FlushedOn v0 s.dev.disk e cs
-  obj : Obj s gh h (slotOf v0.fatType e)
+  dir : h ∈ dirIds gh.dirs
+  mem : slotOf v0.fatType e ∈ objects h (dirSlots gh.vol s.dev.disk gh.G h)
+  file : isDirE (slotOf v0.fatType e) = false
+  synced : ∀ f, f ∈ s.files → fkey f = (e.entryBlock, e.entryOffset) → f.dirty = false ∨ (f.entry = e ∧ e.cluster ≠ 0)
+  /-- the sub-directory entries `ys` lead from the root directory to `h` -/
+  path : PathOn gh.vol.fatType gh.dirs (dirSlots gh.vol s.dev.disk gh.G) 0 ys h
+  pathNames : ∀ y, y ∈ ys → sName y ≠ Sfn.thisDir ∧ sName y ≠ Sfn.parentDir
+
+/-- No open file at the slot has unflushed changes. -/
+def CleanAt (s : Mgr) (pos : Nat × Nat) : Prop := ∀ f, f ∈ s.files → fkey f = pos → f.dirty = false
+
+/-- What every crash point `dk` of a call keeps of the file (medium `d` before the call; `gh` the ghost before it, `ys`
+the sub-directory entries on the way to the file): 512-byte blocks, the 32 bytes of the slot, the FAT entries and the
+bytes of the file's chain, the FAT entries of the non-last clusters of EVERY directory's chain, and the 32 bytes of the
+slots of `ys`. -/
+structure SameFile (v0 : FatVolume) (e : DirEntry) (cs : List Nat) (gh : Ghost) (ys : List Slot) (d dk : Disk) : Prop where
+  blocks : BlocksOK dk
+  slot : slice (dk.get e.entryBlock) e.entryOffset 32 = slice (d.get e.entryBlock) e.entryOffset 32
+  fat : ∀ x, x ∈ cs → fatRaw v0 dk x = fatRaw v0 d x
+  bytes : chainBytes v0 dk cs = chainBytes v0 d cs
+  dirfat : ∀ q, q ∈ dirIds gh.dirs → ∀ c, c ∈ (dirChain gh.vol gh.G q).dropLast → fatRaw v0 dk c = fatRaw v0 d c
+  path : ∀ y, y ∈ ys → slice (dk.get y.1) y.2.1 32 = slice (d.get y.1) y.2.1 32
+
+theorem SameFile.congr {v0 : FatVolume} {e : DirEntry} {cs : List Nat} {gh : Ghost} {ys : List Slot} {d dk d' : Disk}
+    (h : SameFile v0 e cs gh ys d dk) (hd : ∀ i, d'.get i = dk.get i) : SameFile v0 e cs gh ys d d' :=
+  ⟨fun i => by rw [hd]; exact h.blocks i, by rw [hd]; exact h.slot,
+   fun x hx => by unfold fatRaw; rw [hd]; exact h.fat x hx,
+   by rw [WriteRefines.chainBytes_congr v0 dk d' cs (fun x _ j _ => hd _)]; exact h.bytes,
+   fun q hq c hc => by unfold fatRaw; rw [hd]; exact h.dirfat q hq c hc,
+   fun y hy => by rw [hd]; exact h.path y hy⟩
+
+theorem SameFile.flushed {v0 : FatVolume} {e : DirEntry} {cs : List Nat} {gh : Ghost} {ys : List Slot} {d dk : Disk}
+    (h : SameFile v0 e cs gh ys d dk)
+    (hF : FlushedOn v0 d e cs) : FlushedOn v0 dk e cs := by
+  refine ⟨by rw [h.slot]; exact hF.slot, ?_⟩
+  rcases hF.chain with h1 | h1
+  · exact .inl h1
+  · exact .inr (ForestBase.chain_transfer h1 rfl fun x hx => ForestBase.nextOf_congr rfl (h.fat x hx))
 
 section
-variable {v0 : FatVolume} {e : DirEntry} {cs : List Nat} {h : Nat} {s : Mgr} {gh : Ghost}
+variable {v0 : FatVolume} {e : DirEntry} {cs : List Nat} {ys : List Slot} {h : Nat} {s : Mgr} {gh : Ghost}
 
-theorem Kept.obj' (hK : Kept v0 e cs h s gh) : Obj s gh h (slotOf gh.vol.fatType e) := by
-  rw [hK.geom.fatType]; exact hK.obj
+/-- The object of the invariant. -/
+theorem Kept.obj (hK : Kept v0 e cs ys h s gh) (hst : Reopen.Storable v0.fatType e) : Obj s gh h (slotOf v0.fatType e) := by
+  refine ⟨hK.dir, hK.mem, hK.file, fun f hf hk => ?_⟩
+  rcases hK.synced f hf hk with hc | ⟨hc, _⟩
+  · exact .inl hc
+  · right
+    obtain ⟨_, _, _, h4, h5⟩ := slotOf_fields v0.fatType e hst
+    rw [hK.geom.fatType, hc]
+    exact ⟨h4, h5⟩
+
+theorem Kept.obj' (hK : Kept v0 e cs ys h s gh) (hst : Reopen.Storable v0.fatType e) : Obj s gh h (slotOf gh.vol.fatType e) := by
+  rw [hK.geom.fatType]; exact hK.obj hst
 
 /-- The chain the ghost records for the file is `cs`. -/
-theorem Kept.chain (hK : Kept v0 e cs h s gh) (hst : Reopen.Storable v0.fatType e) : chainOf gh.G e.cluster = cs := by
+theorem Kept.chain (hK : Kept v0 e cs ys h s gh) (hst : Reopen.Storable v0.fatType e) : chainOf gh.G e.cluster = cs := by
   have hM := medX_of_med hK.inv.med
   have hG := med_heads hM
-  have hx := hK.obj'
+  have hx := hK.obj' hst
   have hft := hK.geom.fatType
   rw [← hft] at hst
   have hcl : sCluster gh.vol.fatType (slotOf gh.vol.fatType e) = e.cluster := (slotOf_fields _ e hst).2.2.2.1
@@ -74,12 +127,12 @@ theorem Kept.chain (hK : Kept v0 e cs h s gh) (hst : Reopen.Storable v0.fatType 
     exact ChainL.chain_unique this cs hch'
 
 /-- What the invariant says about the entry. -/
-theorem Kept.facts (hK : Kept v0 e cs h s gh) (hst : Reopen.Storable v0.fatType e) :
+theorem Kept.facts (hK : Kept v0 e cs ys h s gh) (hst : Reopen.Storable v0.fatType e) :
     byteAt e.name 0 ≠ 0 ∧ byteAt e.name 0 ≠ 0xE5 ∧ e.attributes % 16 ≠ 15 ∧ Attr.isDirectory e.attributes = false ∧
     (regionOf v0 e.entryBlock = .root ∨ regionOf v0 e.entryBlock = .data) ∧ e.entryOffset % 32 = 0 ∧
     e.entryOffset + 32 ≤ 512 ∧ (∀ c, c ∈ cs → InRange v0 c) := by
   have hM := medX_of_med hK.inv.med
-  have hx := hK.obj
+  have hx := hK.obj hst
   obtain ⟨_, h2, h3, _⟩ := slotOf_fields v0.fatType e hst
   obtain ⟨_, _, _, _, _, hnz, hk⟩ := object_split hM hx.dir hx.mem
   unfold VolBase.keep isFrag at hk
@@ -106,23 +159,24 @@ theorem Kept.facts (hK : Kept v0 e cs h s gh) (hst : Reopen.Storable v0.fatType 
   rw [← hK.chain hst] at hc
   exact (hK.geom.inRange c).1 (chainOf_inRange hM hc)
 
-/-- Only clean read-only handles: the record's size agrees with the slot. -/
+/-- No unflushed changes, or the record agrees: the record's size agrees with the slot. -/
 theorem Obj.effSize {x : Slot} (hI : VolInv s gh) (hx : Obj s gh h x) : effSize s.files x = sSize x := by
   have hM := medX_of_med hI.med
   cases hp : pendOf s.files x with
   | none => exact effSize_of_none hp
   | some f =>
     obtain ⟨hfm, hk⟩ := pendOf_some_mem hp
-    have hd := hx.quiet f hfm hk
-    obtain ⟨h', hh', A, o, B, hO, hpo, _, _, hcl, _⟩ := file_object hM.tree hfm
-    have ho : o ∈ objects h' (dirSlots gh.vol s.dev.disk gh.G h') := by rw [hO]; simp
-    obtain ⟨_, rfl⟩ := AbsFs.slot_unique hM hh' hx.dir (mem_of_mem_objects ho) (mem_of_mem_objects hx.mem) (hpo.trans hk)
     rw [effSize_of_pend hp]
-    exact ((hcl hd).2).symm
+    rcases hx.quiet f hfm hk with hd | hd
+    · obtain ⟨h', hh', A, o, B, hO, hpo, _, _, hcl, _⟩ := file_object hM.tree hfm
+      have ho : o ∈ objects h' (dirSlots gh.vol s.dev.disk gh.G h') := by rw [hO]; simp
+      obtain ⟨_, rfl⟩ := AbsFs.slot_unique hM hh' hx.dir (mem_of_mem_objects ho) (mem_of_mem_objects hx.mem) (hpo.trans hk)
+      exact ((hcl hd).2).symm
+    · exact hd.2.symm
 
 /-- The chain is long enough for the size. -/
-theorem Kept.fit (hK : Kept v0 e cs h s gh) (hst : Reopen.Storable v0.fatType e) : e.size ≤ cs.length * clusterBytesLen v0 := by
-  have hx := hK.obj'
+theorem Kept.fit (hK : Kept v0 e cs ys h s gh) (hst : Reopen.Storable v0.fatType e) : e.size ≤ cs.length * clusterBytesLen v0 := by
+  have hx := hK.obj' hst
   have hft := hK.geom.fatType
   have hst' : Reopen.Storable gh.vol.fatType e := by rw [hft]; exact hst
   obtain ⟨_, _, _, hcl, hsz⟩ := slotOf_fields gh.vol.fatType e hst'
@@ -137,40 +191,234 @@ end
 
 /-! ### One call -/
 
-/-- **One call.**  From `Kept`, a covered call that does not target the file: its licence (any licence
-`StepLicensed` provides) is well formed, `NotNamed` for the file and names no FAT entry of a non-last cluster of the
-chain of the file's directory; and the state after the call is `Kept` again (for a new ghost). -/
-theorem kept_step {v0 : FatVolume} {e : DirEntry} {cs : List Nat} {h : Nat} {s : Mgr} {gh : Ghost} (hK : Kept v0 e cs h s gh)
+/-- The bytes of a directory slot are the 32 bytes at its position. -/
+theorem dirSlots_bytes {v : FatVolume} {d : Disk} {G : List (List Nat)} {h : Nat} {y : Slot} (hy : y ∈ dirSlots v d G h) :
+    y.2.2 = slice (d.get y.1) y.2.1 32 := by
+  rw [dirSlots_eq] at hy
+  split at hy
+  · obtain ⟨j, i, _, _, rfl⟩ := mem_runSlots.1 hy
+    rfl
+  · obtain ⟨c', _, hrun⟩ := mem_chainSlots.1 hy
+    obtain ⟨j, i, _, _, rfl⟩ := mem_runSlots.1 hrun
+    rfl
+
+/-- What a licence that names no FAT entry, no data cluster and no file range, and at most the file's own slot, leaves
+alone: every byte of every block other than the slot's block and the FAT32 info sector. -/
+theorem not_covers_of_slot_only {v : FatVolume} {L : Licence} {eb eo : Nat} (h1 : L.fatClusters = []) (h2 : L.dataClusters = [])
+    (h3 : L.files = []) (h4 : ∀ p, p ∈ L.slots → p = (eb, eo)) {b i : Nat} (hb : b ≠ eb)
+    (hi : v.fatType = .fat32 → b ≠ v.infoLocation) : ¬ Covers v L b i := by
+  rintro (⟨c, hc, _⟩ | ⟨c, hc, _⟩ | ⟨off, hoff, _, _⟩ | ⟨_, h32, hbi, _, _⟩ | ⟨cs', lo, hi', p, hm, _⟩)
+  · rw [h1] at hc; cases hc
+  · rw [h2] at hc; cases hc
+  · have := h4 _ hoff
+    exact hb (Prod.mk.inj this).1
+  · exact hi h32 hbi
+  · rw [h3] at hm; cases hm
+
+theorem reflush_licence {gh : Ghost} {files : List FileInfo} {dirs : List DirInfo} {d : Disk} {op : Op} {L : Licence} {hd i : Nat}
+    {f : FileInfo} (hop : op = .flush hd ∨ op = .closeFile hd) (hidx : files.findIdx? (·.rawFile = hd) = some i)
+    (hfi : files[i]? = some f) (h : LicenceFor gh files dirs d op L) :
+    L.fatClusters = [] ∧ L.dataClusters = [] ∧ L.files = [] ∧ ∀ p, p ∈ L.slots → p = (f.entry.entryBlock, f.entry.entryOffset) := by
+  rcases hop with rfl | rfl
+  · cases h with
+    | nothing => exact ⟨rfl, rfl, rfl, fun _ hp => nomatch hp⟩
+    | flush _ g hg hh hdirty j hj hgj =>
+      rw [hidx] at hj
+      cases hj
+      rw [hfi] at hgj
+      cases hgj
+      exact ⟨rfl, rfl, rfl, fun p hp => List.mem_singleton.1 hp⟩
+  · cases h with
+    | nothing => exact ⟨rfl, rfl, rfl, fun _ hp => nomatch hp⟩
+    | closeFile _ g hg hh hdirty j hj hgj =>
+      rw [hidx] at hj
+      cases hj
+      rw [hfi] at hgj
+      cases hgj
+      exact ⟨rfl, rfl, rfl, fun p hp => List.mem_singleton.1 hp⟩
+
+/-- **One call.**  From `Kept`, a covered call that does not target the file: at EVERY crash point of the call the
+file is intact (`SameFile`: slot bytes, chain, contents; the directory's chain keeps its non-last links); the state
+after the call is `Kept` again (for a new ghost); if no handle at the slot has unflushed changes, the call has a licence
+that is `NotNamed` for the file, and still no handle at the slot has unflushed changes; if only read-only handles sit
+at the slot and the call does not open the file in another mode, only read-only handles sit there afterwards. -/
+theorem kept_step {v0 : FatVolume} {e : DirEntry} {cs : List Nat} {ys : List Slot} {h : Nat} {s : Mgr} {gh : Ghost}
+    (hK : Kept v0 e cs ys h s gh)
     (hst : Reopen.Storable v0.fatType e) {op : Op} (hc : FsCovered v0 s op)
     (hn : ¬ Targets s h e.name (e.entryBlock, e.entryOffset) op) :
-    ∃ L, LicenceFor gh s.files s.dirs s.dev.disk op L ∧ AllLicensed v0 s.dev.disk L (step s op).2.writes ∧
-      (∀ i, (step s op).1.dev.disk.get i = (s.dev.disk.applyWrites (step s op).2.writes).get i) ∧
-      LicWF v0 L ∧ NotNamed v0 L e.entryBlock e.entryOffset cs ∧
-      (∀ c, c ∈ (dirChain gh.vol gh.G h).dropLast → c ∉ L.fatClusters) ∧
-      ∃ gh', Kept v0 e cs h (step s op).1 gh' ∧
-        ((∀ f, f ∈ s.files → fkey f = (e.entryBlock, e.entryOffset) → f.mode = .ReadOnly) → ¬ Opens s h e.name op →
-          ∀ f, f ∈ (step s op).1.files → fkey f = (e.entryBlock, e.entryOffset) → f.mode = .ReadOnly) := by
+    (∀ k, SameFile v0 e cs gh ys s.dev.disk (crashDisk s.dev.disk (step s op).2.writes k)) ∧
+    (∀ i, (step s op).1.dev.disk.get i = (s.dev.disk.applyWrites (step s op).2.writes).get i) ∧
+    (CleanAt s (e.entryBlock, e.entryOffset) →
+      ∃ L, LicenceFor gh s.files s.dirs s.dev.disk op L ∧ AllLicensed v0 s.dev.disk L (step s op).2.writes ∧
+        NotNamed v0 L e.entryBlock e.entryOffset cs) ∧
+    ∃ gh', Kept v0 e cs ys h (step s op).1 gh' ∧
+      (CleanAt s (e.entryBlock, e.entryOffset) → CleanAt (step s op).1 (e.entryBlock, e.entryOffset)) ∧
+      ((∀ f, f ∈ s.files → fkey f = (e.entryBlock, e.entryOffset) → f.mode = .ReadOnly) → ¬ Opens s h e.name op →
+        ∀ f, f ∈ (step s op).1.files → fkey f = (e.entryBlock, e.entryOffset) → f.mode = .ReadOnly) := by
   have hI := hK.inv
   have hM := medX_of_med hI.med
   have hg0 : WFGeom v0 := hK.geom.symm.wfGeom hI.med.geom
   have hft := hK.geom.fatType
-  have hx := hK.obj'
+  have hx := hK.obj' hst
   have hst' : Reopen.Storable gh.vol.fatType e := by rw [hft]; exact hst
   obtain ⟨hsn, _, _, hcl, _⟩ := slotOf_fields gh.vol.fatType e hst'
   obtain ⟨hn0, hn5, hlfn, hplain, hreg, hal, _, hin⟩ := hK.facts hst
+  have hb := hI.med.blocksOK
   -- the licence
   obtain ⟨L, hSL⟩ := step_callOK hI hK.mirror op (nameCovered_all op)
   have hwf : LicWF v0 L := LicWF.sameGeom hK.geom (licenceFor_wf hI hSL.lic)
-  obtain ⟨hnn, hav⟩ := licence_notNamed hI hx (by rw [hsn]; exact hn) hSL.lic
-  rw [hcl, hK.chain hst] at hnn
-  have hnn0 : NotNamed v0 L e.entryBlock e.entryOffset cs := NotNamed.sameGeom hK.geom hnn
   have hall : AllLicensed v0 s.dev.disk L (step s op).2.writes := (WriteSet.allLicensed_sameGeom hK.geom L _ _).1 hSL.all
-  refine ⟨L, hSL.lic, hall, hSL.disk, hwf, hnn0, hav, ?_⟩
+  have hbk : ∀ k, BlocksOK (crashDisk s.dev.disk (step s op).2.writes k) := fun k =>
+    allLicensed_blocksOK _ _ hb (allLicensed_take _ _ k hall)
+  have hFk : ∀ k b i, ¬ Covers v0 L b i →
+      ((crashDisk s.dev.disk (step s op).2.writes k).get b).getD i 0 = (s.dev.disk.get b).getD i 0 :=
+    fun k b i hcov => crash_frame hall hcov k
+  -- every directory's chain keeps its links, the entries on the way keep their bytes: from the licence alone
+  have hdirfat : ∀ k q, q ∈ dirIds gh.dirs → ∀ c, c ∈ (dirChain gh.vol gh.G q).dropLast →
+      fatRaw v0 (crashDisk s.dev.disk (step s op).2.writes k) c = fatRaw v0 s.dev.disk c := by
+    intro k q hq c hc
+    have hcr : InRange v0 c := by
+      have hcm := dirChain_sub hM (List.dropLast_subset _ hc)
+      exact (hK.geom.inRange c).1 (chainOf_inRange hM hcm)
+    exact fatRaw_of_frame hg0 hwf (hFk k) hcr (licence_avoids_dir hI hq hSL.lic c hc)
+  have hpath : ∀ k y, y ∈ ys → slice ((crashDisk s.dev.disk (step s op).2.writes k).get y.1) y.2.1 32 =
+      slice (s.dev.disk.get y.1) y.2.1 32 := by
+    intro k y hy
+    obtain ⟨q, hq, hyo, hyd⟩ := hK.path.entry y hy
+    have hDO : DirObj s gh q y := ⟨hq, hyo, hyd⟩
+    have hnnd : NotNamed v0 L y.1 y.2.1 [] := NotNamed.sameGeom hK.geom (licence_notNamed_dir hI hDO hSL.lic)
+    have hyreg : regionOf v0 y.1 = .root ∨ regionOf v0 y.1 = .data := by
+      rw [← hK.geom.regionOf]
+      rcases dirSlot_not_fat hM hq hDO.memSlots with h1 | h1
+      · exact .inr h1
+      · exact .inl h1
+    have hyoff : y.2.1 % 32 = 0 := by
+      have hm := hDO.memSlots
+      rw [dirSlots_eq] at hm
+      split at hm
+      · obtain ⟨i, _, hi⟩ := slot_offset hm; omega
+      · obtain ⟨c, _, hrun⟩ := mem_chainSlots.1 hm
+        obtain ⟨i, _, hi⟩ := slot_offset hrun; omega
+    have hsp : ∀ L', L' ∈ [L] → Spares v0 L' y.1 y.2.1 [] := by
+      intro L' hL'
+      rw [List.mem_singleton.1 hL']
+      exact spares_of_avoids hg0 (fun c hc => nomatch hc) hyreg hyoff (avoids_of hwf hnnd)
+    exact (spared_at hb (hbk k) (fun b i hcov => hFk k b i (hcov L List.mem_cons_self)) y.1 y.2.1 [] hsp).1
+  -- what the licence gives when it does not name the file
+  have lic_same : NotNamed v0 L e.entryBlock e.entryOffset cs →
+      ∀ k, SameFile v0 e cs gh ys s.dev.disk (crashDisk s.dev.disk (step s op).2.writes k) := by
+    intro hnn0 k
+    have hsp : ∀ L', L' ∈ [L] → Spares v0 L' e.entryBlock e.entryOffset cs := by
+      intro L' hL'
+      rw [List.mem_singleton.1 hL']
+      exact spares_of_avoids hg0 hin hreg hal (avoids_of hwf hnn0)
+    obtain ⟨f1, f2, _, f4⟩ := spared_at hb (hbk k) (fun b i hcov => hFk k b i (hcov L List.mem_cons_self)) e.entryBlock
+      e.entryOffset cs hsp
+    exact ⟨hbk k, f1, f2, f4, hdirfat k, hpath k⟩
+  -- every crash point
+  have hsame : ∀ k, SameFile v0 e cs gh ys s.dev.disk (crashDisk s.dev.disk (step s op).2.writes k) := by
+    by_cases hrf : Reflush s (e.entryBlock, e.entryOffset) op
+    · -- the call stores the record of a handle of the file again: the same 32 bytes
+      obtain ⟨hd, i, f, hop, hidx, hfi, hkey, hdirty⟩ : ∃ hd i f, (op = .flush hd ∨ op = .closeFile hd) ∧
+          s.files.findIdx? (·.rawFile = hd) = some i ∧ s.files[i]? = some f ∧ fkey f = (e.entryBlock, e.entryOffset) ∧
+          f.dirty = true := by
+        cases op with
+        | flush hd => obtain ⟨i, f, h1, h2, h3, h4⟩ := hrf; exact ⟨hd, i, f, .inl rfl, h1, h2, h3, h4⟩
+        | closeFile hd => obtain ⟨i, f, h1, h2, h3, h4⟩ := hrf; exact ⟨hd, i, f, .inr rfl, h1, h2, h3, h4⟩
+        | _ => exact hrf.elim
+      have hfm : f ∈ s.files := List.mem_of_getElem? hfi
+      have hfe : f.entry = e := by
+        rcases hK.synced f hfm hkey with hcn | ⟨hcn, _⟩
+        · rw [hdirty] at hcn; cases hcn
+        · exact hcn
+      obtain ⟨l1, l2, l3, l4⟩ := reflush_licence hop hidx hfi hSL.lic
+      rw [hfe] at l4
+      have hnc : ∀ b i, b ≠ e.entryBlock → (v0.fatType = .fat32 → b ≠ v0.infoLocation) → ¬ Covers v0 L b i :=
+        fun b i h1 h2 => not_covers_of_slot_only l1 l2 l3 l4 h1 h2
+      have hinfo : ∀ b, (regionOf v0 b = .fat ∨ regionOf v0 b = .data) → v0.fatType = .fat32 → b ≠ v0.infoLocation := by
+        intro b hb' h32 e1
+        have := FatLens.info_block_in_info_region v0 hg0 h32 (Reopen.fatStart_le_numBlocks v0 hg0)
+        rw [← e1] at this
+        rcases hb' with h' | h' <;> rw [h'] at this <;> cases this
+      intro k
+      have hfinal : ∀ i, (step s op).1.dev.disk.get i =
+          (crashDisk s.dev.disk (step s op).2.writes (step s op).2.writes.length).get i := by
+        intro i; rw [hSL.disk i]; unfold crashDisk; rw [List.take_length]
+      refine ⟨hbk k, ?_, ?_, ?_, hdirfat k, hpath k⟩
+      · -- the slot: old block, or the block the call leaves, which carries the same 32 bytes
+        have hat := reflush_atomic hI hK.mirror hidx hfi hdirty op hop k
+        rw [hfe] at hat
+        rcases hat with hat | hat
+        · rw [hat]
+        · rw [hat]
+          -- the final block: outside the slot as before, the slot holds `serialize e`
+          obtain ⟨_, hFfin, _⟩ : True ∧ slice ((step s op).1.dev.disk.get e.entryBlock) e.entryOffset 32 =
+              e.serialize gh.vol.fatType ∧ True := by
+            refine ⟨trivial, ?_, trivial⟩
+            rcases hop with rfl | rfl
+            · have := (flush_step_flushed hI hidx hfi hdirty).2.1.slot
+              rw [hfe] at this; exact this
+            · have := (close_step_flushed hI hidx hfi hdirty).2.1.slot
+              rw [hfe] at this; exact this
+          rw [hFfin, hft]
+          exact hK.flushed.slot.symm
+      · intro x hx'
+        have hxr := hin x hx'
+        unfold fatRaw
+        have hreg' : regionOf v0 (fatBlock v0 x) = .fat := (FatLens.fat_blocks_in_fat_region v0 hg0 x hxr.2).1
+        have hne : fatBlock v0 x ≠ e.entryBlock := by
+          intro e1; rw [e1] at hreg'
+          rcases hreg with h' | h' <;> rw [h'] at hreg' <;> cases hreg'
+        rw [block_ext hb (hbk k) _ fun i => hFk k _ i (hnc _ i hne (hinfo _ (.inl hreg')))]
+      · refine WriteRefines.chainBytes_congr v0 _ _ cs fun x hx' j hj => ?_
+        have hxr := hin x hx'
+        have hreg' : regionOf v0 (clusterToBlock v0 x + j) = .data :=
+          WriteSet.data_block_region v0 hg0 x _ hxr (Nat.le_add_right _ _) (by omega)
+        have hne : clusterToBlock v0 x + j ≠ e.entryBlock := by
+          have h11 := (file_entry_facts hI hfm).2.2.2.2.2.2.2.2.2.2
+          rw [hfe, hK.chain hst] at h11
+          have e1 := WriteRefines.sameGeom_bpc hK.geom
+          have e2 := WriteRefines.sameGeom_clusterToBlock hK.geom x
+          have := h11 x hx' j (by omega)
+          omega
+        exact block_ext hb (hbk k) _ fun i => hFk k _ i (hnc _ i hne (hinfo _ (.inr hreg')))
+    · obtain ⟨hnn, _⟩ := licence_notNamed hI hx (by rw [hsn]; exact hn) hrf hSL.lic
+      rw [hcl, hK.chain hst] at hnn
+      exact lic_same (NotNamed.sameGeom hK.geom hnn)
+  refine ⟨hsame, hSL.disk, ?_, ?_⟩
+  · -- no handle with unflushed changes at the slot: the licence does not name the file
+    intro hclean
+    have hrf : ¬ Reflush s (e.entryBlock, e.entryOffset) op := by
+      intro hrf
+      cases op with
+      | flush hd => obtain ⟨i, f, _, h2, h3, h4⟩ := hrf; rw [hclean f (List.mem_of_getElem? h2) h3] at h4; cases h4
+      | closeFile hd => obtain ⟨i, f, _, h2, h3, h4⟩ := hrf; rw [hclean f (List.mem_of_getElem? h2) h3] at h4; cases h4
+      | _ => exact hrf.elim
+    obtain ⟨hnn, _⟩ := licence_notNamed hI hx (by rw [hsn]; exact hn) hrf hSL.lic
+    rw [hcl, hK.chain hst] at hnn
+    exact ⟨L, hSL.lic, hall, NotNamed.sameGeom hK.geom hnn⟩
+  -- the state after the call
+  have hsfin : SameFile v0 e cs gh ys s.dev.disk (step s op).1.dev.disk :=
+    (hsame (step s op).2.writes.length).congr fun i => by rw [hSL.disk i]; unfold crashDisk; rw [List.take_length]
+  have hFl' : FlushedOn v0 (step s op).1.dev.disk e cs := hsfin.flushed hK.flushed
   -- the abstract step
   obtain ⟨a, hA⟩ := AbsFs.abs_total hI
   obtain ⟨gh', a', hI', hg', hA', hstep⟩ := AbsFs.fs_step_refines v0 hI hA hK.geom op hc
   have hgg : SameGeom gh.vol gh'.vol := hK.geom.symm.trans hg'
-  obtain ⟨j, hj, hk⟩ := keepsA_of_obj hI hA hx
+  have hraw' : RawOK gh'.vol.fatType (step s op).1.dev.disk (step s op).1.files := by
+    rw [hgg.fatType]
+    exact (VolCrash.step_stepC hI hK.raw op (nameCovered_all op)).raw
+  have hcl0 : e.cluster < 4294967296 := by
+    have := hst.cluster_lt
+    cases hv : v0.fatType <;> rw [hv] at this <;> simp only at this <;> omega
+  have hmeta : metaOf gh.vol.fatType (slotOf gh.vol.fatType e) = Spec.AbsFs.storedMeta (Spec.AbsFs.view e) :=
+    AbsFs.metaOf_serialize gh.vol.fatType e e.entryBlock e.entryOffset hst.name_len hst.attr_lt hst.size_lt hcl0
+  obtain ⟨j, hj, hk⟩ := keepsA_of_obj hI hA hx (fun pm => pm = Spec.AbsFs.view e ∧ e.cluster ≠ 0)
+    (fun f hf hkey => by
+      rcases hK.synced f hf hkey with hcn | ⟨hcn, hne⟩
+      · exact .inl hcn
+      · exact .inr ⟨by rw [hcn], hne⟩)
+    (fun pm hp => by rw [hp.1, hmeta])
   have hmname : (metaOf gh.vol.fatType (slotOf gh.vol.fatType e)).name = e.name :=
     ((VolDisk.decode_fields gh.vol.fatType _).1).trans hsn
   have hk' := SurviveAbs.absStep_keeps hstep hk (fun hna => hn (by
@@ -178,72 +426,131 @@ theorem kept_step {v0 : FatVolume} {e : DirEntry} {cs : List Nat} {h : Nat} {s :
     rw [hmname] at this
     exact this))
   have hh' : h ∈ dirIds gh'.dirs := by rw [← hA'.ids]; exact hk'.ids
-  -- the frame of the call
-  have hb := hI.med.blocksOK
-  have hb' := hI'.med.blocksOK
-  have hF : ∀ b i, (∀ L', L' ∈ [L] → ¬ Covers v0 L' b i) →
-      ((step s op).1.dev.disk.get b).getD i 0 = (s.dev.disk.get b).getD i 0 := by
-    intro b i hcov
-    rw [hSL.disk b]
-    exact allLicensed_frame (hcov L List.mem_cons_self) _ _ hall
-  have hsp : ∀ L', L' ∈ [L] → Spares v0 L' e.entryBlock e.entryOffset cs := by
-    intro L' hL'
-    rw [List.mem_singleton.1 hL']
-    exact spares_of_avoids hg0 hin hreg hal (avoids_of hwf hnn0)
-  obtain ⟨f1, _, f3, _⟩ := spared_at hb hb' hF e.entryBlock e.entryOffset cs hsp
-  have hFl' : FlushedOn v0 (step s op).1.dev.disk e cs := by
-    refine ⟨by rw [f1]; exact hK.flushed.slot, ?_⟩
-    rcases hK.flushed.chain with h1 | h1
-    · exact .inl h1
-    · exact .inr (f3 _ h1)
-  -- the directory's chain has only grown
-  have hpre : dirChain gh.vol gh.G h <+: dirChain gh'.vol gh'.G h := by
+  -- the chains of the directories have only grown
+  have hpreAll : ∀ q, q ∈ dirIds gh.dirs → q ∈ dirIds gh'.dirs → dirChain gh.vol gh.G q <+: dirChain gh'.vol gh'.G q := by
+    intro q hq hq'
     rw [dirChain_sameGeom hgg]
-    by_cases hf : isFixedRoot gh.vol h
+    by_cases hf : isFixedRoot gh.vol q
     · unfold dirChain; rw [if_pos hf, if_pos hf]; exact List.prefix_refl _
-    · have hf' : ¬ isFixedRoot gh'.vol h := by unfold isFixedRoot at hf ⊢; rw [hgg.fatType]; exact hf
+    · have hf' : ¬ isFixedRoot gh'.vol q := by unfold isFixedRoot at hf ⊢; rw [hgg.fatType]; exact hf
       have hM' := medX_of_med hI'.med
-      obtain ⟨m1, d1⟩ := dirChain_spec hM hx.dir hf
-      obtain ⟨m2, d2⟩ := dirChain_spec hM' hh' hf'
+      obtain ⟨m1, d1⟩ := dirChain_spec hM hq hf
+      obtain ⟨m2, d2⟩ := dirChain_spec hM' hq' hf'
       have c1 := med_chain hM m1
       have c2 := med_chain hM' m2
       rw [headD_of_head? d1] at c1
       rw [headD_of_head? d2] at c2
-      have c2' : Chain gh.vol (step s op).1.dev.disk (dirHead gh.vol h) (chainOf gh'.G (dirHead gh.vol h)) := by
+      have c2' : Chain gh.vol (step s op).1.dev.disk (dirHead gh.vol q) (chainOf gh'.G (dirHead gh.vol q)) := by
         have := ForestBase.chain_sameGeom hgg.symm c2
-        have hdh : dirHead gh'.vol h = dirHead gh.vol h := by
+        have hdh : dirHead gh'.vol q = dirHead gh.vol q := by
           obtain ⟨a, b, hv⟩ := hgg
           rw [hv]; rfl
         rw [hdh] at this
         exact this
-      have hdc1 : dirChain gh.vol gh.G h = chainOf gh.G (dirHead gh.vol h) := by unfold dirChain; rw [if_neg hf]
-      have hdc2 : dirChain gh.vol gh'.G h = chainOf gh'.G (dirHead gh.vol h) := by unfold dirChain; rw [if_neg hf]
-      rw [hdc1, hdc2]
+      have hdc1 : dirChain gh.vol gh.G q = chainOf gh.G (dirHead gh.vol q) := by unfold dirChain; rw [if_neg hf]
+      have hdc2 : dirChain gh.vol gh'.G q = chainOf gh'.G (dirHead gh.vol q) := by unfold dirChain; rw [if_neg hf]
+      have hdf := hsfin.dirfat q hq
+      rw [hdc2]
+      rw [hdc1] at hdf ⊢
       refine chain_prefix c1 c2' fun c hc => ?_
-      have hcr : InRange gh.vol c := med_inRange hM m1 (List.dropLast_subset _ hc)
-      have hraw : fatRaw v0 (step s op).1.dev.disk c = fatRaw v0 s.dev.disk c :=
-        fatRaw_of_frame hg0 hwf (fun b i hcov => hF b i (fun L' hL' => by rw [List.mem_singleton.1 hL']; exact hcov))
-          ((hK.geom.inRange c).1 hcr) (hav c (by rw [hdc1]; exact hc))
       rw [hK.geom.nextOf, hK.geom.nextOf]
-      exact ForestBase.nextOf_congr rfl hraw
+      exact ForestBase.nextOf_congr rfl (hdf c hc)
+  have hpre : dirChain gh.vol gh.G h <+: dirChain gh'.vol gh'.G h := hpreAll h hx.dir hh'
+  -- the way to the directory is still there
+  have hpath' : PathOn gh'.vol.fatType gh'.dirs (dirSlots gh'.vol (step s op).1.dev.disk gh'.G) 0 ys h := by
+    refine pathOn_next hgg (TreeView.of_treeOK hI.med.tree) (TreeView.of_treeOK hI'.med.tree) hpreAll ?_ hK.path hK.pathNames
+      (zero_mem_dirIds _)
+    intro y hy
+    obtain ⟨q, hq, hyo, _⟩ := hK.path.entry y hy
+    rw [hsfin.path y hy]
+    exact (dirSlots_bytes (mem_of_mem_objects hyo)).symm
   -- the slot is still in its directory
   have hxm' : slotOf gh.vol.fatType e ∈ dirSlots gh'.vol (step s op).1.dev.disk gh'.G h := by
     refine mem_dirSlots_next hgg hx.memSlots ?_ hpre
     show slice ((step s op).1.dev.disk.get e.entryBlock) e.entryOffset 32 = e.serialize gh.vol.fatType
     rw [hFl'.slot, hft]
-  have hobj' : Obj (step s op).1 gh' h (slotOf gh.vol.fatType e) ∧
-      (beforeEnd (dirSlots gh'.vol (step s op).1.dev.disk gh'.G h))[j]? = some (slotOf gh.vol.fatType e) := by
-    refine obj_of_keepsA hI' hA' hk' hxm' ?_ (slotOf_keep _ e hst' hn5 hlfn) ?_ ?_
-    · rw [(slotOf_fields _ e hst').2.1]; exact hn0
-    · rw [slotOf_isDir _ e hst']; exact hplain
-    · rw [hsn, hmname]
-  refine ⟨gh', ⟨hI', (hgg.mirror _).2 hSL.mirror, hg', hFl', by rw [← hft]; exact hobj'.1⟩, ?_⟩
-  intro hro hno
-  have hroA := roA_of_allRO hA hj hro
-  have hroA' := SurviveAbs.absStep_ro hstep hk.slot hroA (fun ho => hno (by
-    have := opens_of_opensA hA ho
-    rw [hmname] at this
-    exact this))
-  exact allRO_of_roA hI' hA' hh' hobj'.2 hroA'
+  -- a handle at the slot whose pending entry is the flushed one has the flushed record
+  have hrec : ∀ f, f ∈ (step s op).1.files → fkey f = (e.entryBlock, e.entryOffset) →
+      (Spec.AbsFs.view f.entry = Spec.AbsFs.view e ∧ e.cluster ≠ 0) → f.entry = e ∧ e.cluster ≠ 0 := by
+    intro f hf hkey ⟨hv, hne⟩
+    refine ⟨?_, hne⟩
+    have hcl' : f.entry.cluster = e.cluster := by
+      have hr := hraw' f hf
+      have hsl : slotAt (step s op).1.dev.disk f.entry.entryBlock f.entry.entryOffset = slotOf gh.vol.fatType e := by
+        obtain ⟨k1, k2⟩ := Prod.mk.inj hkey
+        have h32 : slice ((step s op).1.dev.disk.get e.entryBlock) e.entryOffset 32 = e.serialize gh.vol.fatType := by
+          rw [hFl'.slot, hft]
+        show (f.entry.entryBlock, f.entry.entryOffset,
+          slice ((step s op).1.dev.disk.get f.entry.entryBlock) f.entry.entryOffset 32) = _
+        rw [k1, k2, h32]
+        rfl
+      rw [hsl, hgg.fatType, hcl] at hr
+      rcases hr with hr | hr
+      · exact absurd hr hne
+      · exact hr.symm
+    obtain ⟨k1, k2⟩ := Prod.mk.inj hkey
+    have hv' := hv
+    unfold Spec.AbsFs.view at hv'
+    injection hv' with v1 v2 v3 v4 v5
+    cases hfe : f.entry with
+    | mk n mt ct at' cl sz eb eo =>
+      rw [hfe] at v1 v2 v3 v4 v5 hcl' k1 k2
+      cases he : e with
+      | mk n' mt' ct' at'' cl' sz' eb' eo' =>
+        rw [he] at v1 v2 v3 v4 v5 hcl' k1 k2
+        simp only at v1 v2 v3 v4 v5 hcl' k1 k2
+        subst v1 v2 v3 v4 v5 hcl' k1 k2
+        rfl
+  obtain ⟨hobj', hj', hq'⟩ := obj_of_keepsA hI' hA' hk' hxm' (by rw [(slotOf_fields _ e hst').2.1]; exact hn0)
+    (slotOf_keep _ e hst' hn5 hlfn) (by rw [slotOf_isDir _ e hst']; exact hplain) (by rw [hsn, hmname])
+    (fun f hf hkey hP => by
+      obtain ⟨hfe, _⟩ := hrec f hf hkey hP
+      obtain ⟨_, _, _, h4, h5⟩ := slotOf_fields gh.vol.fatType e hst'
+      rw [hgg.fatType, hfe]; exact ⟨h4, h5⟩)
+  refine ⟨gh', ⟨hI', (hgg.mirror _).2 hSL.mirror, hraw', hg', hFl', hh', ?_, ?_, ?_, hpath', hK.pathNames⟩, ?_, ?_⟩
+  · rw [← hft]; exact hobj'.mem
+  · rw [← hft]; exact hobj'.file
+  · intro f hf hkey
+    rcases hq' f hf hkey with hcn | hcn
+    · exact .inl hcn
+    · exact .inr (hrec f hf hkey hcn)
+  · -- clean handles stay clean
+    intro hclean f hf hkey
+    have hqa : SurviveAbs.QuietA a h j (fun _ => False) := by
+      intro af haf h1 h2
+      obtain ⟨g, hg, hrel⟩ := forall₂_left hA.files haf
+      obtain ⟨o, ho, hp⟩ := hrel.slot
+      rw [h1, h2, hj] at ho
+      injection ho with ho
+      subst ho
+      exact .inl (hrel.dirty.trans (hclean g hg hp.symm))
+    have hk0 : KeepsA a h j (metaOf gh.vol.fatType (slotOf gh.vol.fatType e))
+        (contentOf gh.vol s.dev.disk gh.G s.files (slotOf gh.vol.fatType e)) (fun _ => False) :=
+      ⟨hk.ids, hk.slot, hqa, fun _ hF => hF.elim⟩
+    have hk0' := SurviveAbs.absStep_keeps hstep hk0 (fun hna => hn (by
+      have := targets_of_namesA hA hj hna
+      rw [hmname] at this
+      exact this))
+    obtain ⟨af, haf, hrel⟩ := forall₂_right' hA'.files hf
+    obtain ⟨o', ho', hp'⟩ := hrel.slot
+    have hM' := medX_of_med hI'.med
+    obtain ⟨e1, e2⟩ := AbsFs.slot_unique hM' hrel.dirMem hh' (AbsFs.mem_of_beforeEnd_getElem? ho') hxm' (hp'.trans hkey)
+    subst e2
+    rw [e1] at ho'
+    have hidx : af.idx = j := by
+      have hnd := beforeEnd_nodup (dirSlots_pos_nodup hM' hh' (step s op).1.dev.disk)
+      have hlt : af.idx < (Spec.Volume.beforeEnd (dirSlots gh'.vol (step s op).1.dev.disk gh'.G h)).length :=
+        (List.getElem?_eq_some_iff.1 ho').1
+      exact (List.getElem?_inj hlt hnd).1 (ho'.trans hj'.symm)
+    rcases hk0'.quiet af haf e1 hidx with hcn | hcn
+    · exact hrel.dirty.symm.trans hcn
+    · exact hcn.elim
+  · intro hro hno
+    have hroA := roA_of_allRO hA hj hro
+    have hroA' := SurviveAbs.absStep_ro hstep hk.slot hroA (fun ho => hno (by
+      have := opens_of_opensA hA ho
+      rw [hmname] at this
+      exact this))
+    exact allRO_of_roA hI' hA' hh' hj' hroA'
 
 end Sdmmc.Lemmas.Survive
